@@ -159,6 +159,9 @@ def main_check(modname, tier, seed):
     results = []
     if not harness_errors:
         jobs = mod.jobs(tier, seed)
+        only = [x for x in os.environ.get("VERIF_ONLY", "").split(";") if x]
+        if only:   # development aid: restrict to jobs whose name contains every listed substring
+            jobs = [j for j in jobs if all(x in j["name"] for x in only)]
         for j in jobs:
             j.setdefault("seed", seed)
             j.setdefault("tier", tier)
@@ -166,6 +169,13 @@ def main_check(modname, tier, seed):
     by_verdict = {}
     for r in results:
         by_verdict.setdefault(r["verdict"], []).append(r)
+    try:
+        os.makedirs(os.path.join(VERIF, ".cache"), exist_ok=True)
+        with open(os.path.join(VERIF, ".cache", "jobs_%s_%s.jsonl" % (pid, tier)), "w") as f:
+            for r in results:
+                f.write(json.dumps({k: r.get(k) for k in ("name", "verdict", "wall_s", "solver_s", "queries", "obligations", "discharged", "detail")}, default=str) + "\n")
+    except OSError:
+        pass
 
     # 4. replay counterexamples -------------------------------------------------------------
     violations = []
